@@ -143,6 +143,9 @@ class C06(HistoryProfile):
   def config(self, rng, tier):
     cfg = super(C06, self).config(rng, tier)
     cfg["sched_seed"] = rng.getrandbits(48)
+    # formulas that swallow exceptions (the engine's own "not computed yet" signal among them) and
+    # read on are where the evaluation order can leak into results
+    cfg["formula_kinds"] = list(gen.DEFAULT_FORMULA_KINDS) + ["swallow"] * 5
     return cfg
 
   def new_sim(self, cfg):
